@@ -350,6 +350,20 @@ def check_config(cfg, ops, tmp, ls):
                         out.append(("wrong-rotation-parameters", "backupCount %r" % h.backupCount))
                     if kindh == "timed" and (h.backupCount != int(spec["old-files"]) or h.when != spec["when"].upper()):
                         out.append(("wrong-rotation-parameters", "backupCount %r when %r" % (h.backupCount, h.when)))
+                    if kindh == "timed":
+                        unit = {"S": 1, "M": 60, "H": 3600, "D": 86400, "MIDNIGHT": 86400}.get(spec["when"].upper())
+                        if spec["when"].upper().startswith("W"):
+                            unit = 7 * 86400
+                        want_iv = unit * int(spec.get("interval") or 1) if unit else None
+                        if want_iv is not None and h.interval != want_iv:
+                            out.append(("wrong-rotation-parameters:interval", "interval %r for when=%s interval=%r" % (h.interval, spec["when"], spec.get("interval"))))
+                    if kindh == "rotating" and h.maxBytes != {"10kb": 10240, "1mb": 1048576, "5": 5}.get(spec["max-size"], h.maxBytes):
+                        out.append(("wrong-rotation-parameters:max-size", "maxBytes %r for %r" % (h.maxBytes, spec["max-size"])))
+                    if bool(getattr(h, "delay", False)) != ((spec.get("delay") or "").lower() in ("yes", "true", "on")):
+                        out.append(("wrong-delay", "delay %r for %r" % (getattr(h, "delay", None), spec.get("delay"))))
+                    want_enc = spec.get("encoding")
+                    if want_enc and (h.encoding or "").lower().replace("_", "-") != want_enc.lower():
+                        out.append(("wrong-encoding", "encoding %r for %r" % (h.encoding, want_enc)))
                 wl = ref_level(spec["level"]) if spec.get("level") is not None else 0
                 if h.level != wl:
                     out.append(("wrong-handler-level", "%r gives %r expected %r" % (spec.get("level"), h.level, wl)))
@@ -419,6 +433,18 @@ def check_config(cfg, ops, tmp, ls):
                     break
             for h, spec in live:
                 h._zcv_closed = True
+        elif kind == "closeOne":
+            # the application closes one file handler itself: it is no longer a live handler
+            cands = [h for h, s_ in live if not getattr(h, "_zcv_closed", False)]
+            if cands:
+                h1 = cands[op[1] % len(cands)]
+                try:
+                    h1.close()
+                except Exception as e:  # noqa
+                    out.append(("handler-close-raises:%s" % type(e).__name__, str(e)[:200]))
+                h1._zcv_closed = True
+                h1 = None
+            cands = None
         elif kind == "drop":
             i = op[1] % len(cfg)
             if i in created:
@@ -434,7 +460,7 @@ def check_config(cfg, ops, tmp, ls):
                 del mine
                 h = hh = old = lg = fac = target = None
                 config = got = None      # the configuration object holds every factory
-                new = before = streams = closed_before = None
+                new = before = streams = closed_before = cands = h1 = None
                 attempts.pop(i, None)
                 gc.collect()
                 # the application has let go of these handlers: whatever happens to their
@@ -623,7 +649,7 @@ def gen_ops(rng, n, retry=False):
         return [("call", k), ("mkdir", 0), ("call", k), ("again", k), ("reopenFiles", 0), ("closeFiles", 0)]
     ops = [("call", rng.randrange(4))]
     for _ in range(rng.randint(0, 5)):
-        k = rng.choice(["call", "again", "reopen", "reopenFiles", "closeFiles", "drop", "call", "startup"])
+        k = rng.choice(["call", "again", "reopen", "reopenFiles", "closeFiles", "drop", "call", "startup", "closeOne"])
         ops.append((k, rng.randrange(4)))
     return ops
 
